@@ -135,15 +135,24 @@ def search_entries(chk, r, n, max_pto, thorough):
             continue
         worst, scale, at = 0.0, 0.0, None
         for o in ref:
+            scale = max(scale, float(np.abs(ref[o]).max()))
+        excess = 0.0
+        for o in ref:
             v = np.asarray(real.orders[(o, 0, 0, 0)][0]) if (o, 0, 0, 0) in real.orders else np.zeros_like(ref[o])
+            e = np.asarray(real.orders[(o, 0, 0, 0)][1]) if (o, 0, 0, 0) in real.orders else np.zeros_like(ref[o])
             dd = np.abs(v - ref[o])
+            # "up to quadrature accuracy": 2e-7 of the operator scale plus five times the error the code
+            # itself reports for that entry (QUADPACK with 50 subdivisions: ~1e-6 at NNLO)
+            ex = dd - (2e-7 * max(scale, 1e-300) + 5.0 * e)
             if dd.max() > worst:
                 worst = float(dd.max())
-                idx = np.unravel_index(int(dd.argmax()), dd.shape)
-                at = dict(order=o, pid=PIDS[idx[0]], basis=int(idx[1]), real=float(v[idx]), reference=float(ref[o][idx]))
-            scale = max(scale, float(np.abs(ref[o]).max()), float(np.abs(v).max()))
+            if ex.max() > excess or at is None:
+                idx = np.unravel_index(int(ex.argmax()), ex.shape)
+                excess = max(excess, float(ex.max()))
+                at = dict(order=o, pid=PIDS[idx[0]], basis=int(idx[1]), real=float(v[idx]), reference=float(ref[o][idx]), reported_error=float(e[idx]))
+            scale = max(scale, float(np.abs(v).max()))
         case.update(maxdiff=worst, scale=scale, at=at, kernels=len(kernels))
-        ok = worst <= 2e-7 * max(scale, 1e-300)
+        ok = excess <= 0.0
         chk.search_case("entries_vs_independent_convolution", ok, what=f"{cfg[0]}_{cfg[1]} {cfg[2]} {cfg[4]} NfFF={cfg[5]} PTO={pto} x={x:.5g} ({where}) degree={degree} log={is_log}: entry {at} differs from sum_k w x chi x (C (x) p_j)(chi)", data=case, sample={k_: v_ for k_, v_ in case.items() if k_ != "grid"} if where == "last-interval" else None, nontrivial=scale > 0)
 
 
